@@ -9,11 +9,11 @@ Theorem C10_no_pull_after_signal : forall (r : Runner) (len : nat) (stop : nat -
   runner_wf r ->
   let s := mrun r len stop sched in
   skipped s = true -> nth_error (ws s) i = Some w -> ph w = Ready ->
-  wstep len stop (ctr s) (front s) (skipped s) w = (c', f', sk', w') ->
+  wstep len stop nopanic (ctr s) (front s) (skipped s) w = (c', f', sk', w') ->
   ph w' = Done /\ f' = front s.
 Proof.
   intros r len stop sched i w c' f' sk' w' Hw s Hsk Hn Hr Hs.
-  exact (@no_pull_after_signal len stop (m_maxt r) (m_maxt_pos Hw) s i w c' f' sk' w' (mrun_SInv Hw len stop sched) Hsk Hn Hr Hs).
+  exact (@no_pull_after_signal len stop nopanic (m_maxt r) (m_maxt_pos Hw) s i w c' f' sk' w' (mrun_SInv Hw len stop sched) Hsk Hn Hr Hs).
 Qed.
 Print Assumptions C10_no_pull_after_signal.
 
@@ -23,7 +23,7 @@ Print Assumptions C10_no_pull_after_signal.
 Theorem C10_bounded_work_after_signal : forall (r : Runner) (len : nat) (stop : nat -> bool)
   (sched sched2 : list nat),
   runner_wf r -> skipped (mrun r len stop sched) = true ->
-  effective len (match r_input_len r with Some _ => true | None => false end) stop
+  effective len (match r_input_len r with Some _ => true | None => false end) stop nopanic
             (m_dospawn r) (m_nextc r) (mrun r len stop sched) sched2
   <= 5 * m_maxt r + 3 + sum_list (map (fun w => 2 * csize w + 3) (ws (mrun r len stop sched))).
 Proof. intros r len stop sched sched2 Hw Hsk. apply mrun_after_signal; assumption. Qed.
@@ -40,7 +40,7 @@ Print Assumptions C10_fair_continuation_completes.
 
 Theorem C10_effective_steps_bounded : forall (r : Runner) (len : nat) (stop : nat -> bool) (sched : list nat),
   runner_wf r ->
-  effective len (match r_input_len r with Some _ => true | None => false end) stop
+  effective len (match r_input_len r with Some _ => true | None => false end) stop nopanic
             (m_dospawn r) (m_nextc r) (init (m_c0 r)) sched <= 5 * m_maxt r + 2 + 4 * len.
 Proof. intros r len stop sched Hw. apply mrun_effective_bounded; assumption. Qed.
 Print Assumptions C10_effective_steps_bounded.
